@@ -77,6 +77,14 @@ def _gen_cases(rng, tier):
             cases.append({"kind": "explode", "h": h, "sub": None, "lim": ["frac", lim.numerator, lim.denominator], "inf": None})
         else:
             cases.append({"kind": "h_explode", "h": h, "md": None, "pl": ["frac", lim.numerator, lim.denominator], "via_pool": rng.random() < 0.3})
+    for i in range(n // 15):
+        # the single-face special case (extrapolation to `inf`) under every spelling of a fractional limit
+        f = rng.choice([1, 2, -3, 4])
+        h = [[gens.q(f), rng.choice([1, 1, 7])]]
+        num, den = rng.choice([(1, 4), (1, 8), (1, 10000), (3, 8)])
+        lim = [rng.choice(["frac", "float", "float"]), num, den]
+        sub = rng.choice([None, [gens.q(f)], "maxcount"])
+        cases.append({"kind": "explode", "h": h, "sub": sub, "lim": lim, "inf": 1000})
     for i in range(n // 10):
         # weighted die, a predicate that holds for two or more faces of different weight, fractional limits on
         # and between the probabilities of the chains of re-rolls (the cut depends on the path taken)
